@@ -20,12 +20,12 @@ CLAIMED = {
    technique="Lean 4 proof (inductive invariants over all schedules of the region-level model, 3200 lines) + regenerated-flag obligation + controlled-schedule acceptor correspondence",
    design="§8 C06, §15"),
  "C07": dict(
-   text="Theorems: (region level, every schedule, publishes placed anywhere relative to registration / history scan / go-live, disconnections, overflow, Close) the sequence a reconnecting subscriber has been sent is a gap-free prefix of its ideal sequence — the stored updates following the requested id (all for 'earliest'), then everything accepted after it was indexed, those it matches, each once, in history order — and exactly that sequence at quiescence if still connected; (operation level) a reconnection with the id of a retained update replays exactly the accepted updates that follow it for every retention size and cleanup coin sequence; a restart keeps the history; obligation against regenerated flags: the scan stops before an entry stored after registration, the sequence is reloaded on open; witness theorems: [u2,u2] on the code as found (F2/F3), [u2] for the same schedule on the repaired code. Tie: junction-targeting controlled schedules (with/without restart, buffers 1-3 and 1000) and hub histories with replays larger than the buffer.",
+   text="Theorems: (region level, every schedule, publishes placed anywhere relative to registration / history scan / go-live, disconnections, overflow, Close) the sequence a reconnecting subscriber has been sent is a gap-free prefix of its ideal sequence — the stored updates following the requested id (all for 'earliest'), then everything accepted after it was indexed, those it matches, each once, in history order — and exactly that sequence at quiescence if still connected; (operation level) a reconnection with the id of a retained update replays exactly the accepted updates that follow it for every retention size and cleanup coin sequence; a restart keeps the history; obligation against regenerated flags: the scan stops before an entry stored after registration, the sequence is reloaded on open; witness theorems: [u2,u2] on the code as found (F2/F3), [u2] for the same schedule on the repaired code. Tie: junction-targeting controlled schedules (with/without restart, buffers 1-3 and 1000) and hub histories with replays larger than the buffer. Byte level (Model/BoltStore, Model/Json): the scan of dispatchHistory run on the bucket's bytes (ids compared as k[8:], cut at BigEndian.Uint64(k[:8]) > toSeq, values decoded from JSON) is proved to announce the id and replay the updates that the abstract negotiation computes, for every bucket the hub can have written; family store compares keys and values byte for byte and runs scans for ids that are stored, repeated, proper suffixes/prefixes of stored ids, 'earliest', unknown.",
    note=TB + REGION + "Region level stated for retention size 0; restart is a separate phase (the restarted transport reloads its sequence: flag lastSeqOnOpen, theorem C09.crash_restart_keeps_committed).",
    technique="Lean 4 proof (inductive invariants over all schedules; negotiation and retention by induction; witnesses by kernel evaluation) + regenerated-flag obligation + controlled-schedule acceptor correspondence",
    design="§8 C07, §15"),
  "C09": dict(
-   text="Theorems over every schedule of the region-level model (Bolt): whatever was handed to a subscriber had been persisted before; a Dispatch that returned without error had persisted its update; the store is the accepted sequence minus a discarded prefix with every update at the position it was given (positions never change); nothing is lost without retention, the last `size` are stored with it; a crash in ANY state followed by a restart keeps the committed store, its sequence and positions, reports the last stored id and reloads the sequence. Tie: the instrumented transport in a child process SIGKILLs itself at every synchronisation point inside and around every publish (retention on/off); the parent reopens the file (bbolt and NewBoltTransport) and compares with the model's crash+restart; oracles on the file alone.",
+   text="Theorems over every schedule of the region-level model (Bolt): whatever was handed to a subscriber had been persisted before; a Dispatch that returned without error had persisted its update; the store is the accepted sequence minus a discarded prefix with every update at the position it was given (positions never change); nothing is lost without retention, the last `size` are stored with it; a crash in ANY state followed by a restart keeps the committed store, its sequence and positions, reports the last stored id and reloads the sequence. Tie: the instrumented transport in a child process SIGKILLs itself at every synchronisation point inside and around every publish (retention on/off); the parent reopens the file (bbolt and NewBoltTransport) and compares with the model's crash+restart; oracles on the file alone. Byte level: byte order of the keys the hub writes is the numeric order of the sequence numbers whatever the ids (key_order_is_sequence_order), keys read back as written (key_roundtrip), and after any publication history the bucket holds byte for byte the encoding of the abstract retained history (bucket_bytes_are_the_history); family store reads raw keys and values back after every publication.",
    note=TB + REGION + "PARTIAL: atomicity/durability of one bbolt transaction and 'the file always reopens' are assumptions (the model's db.Update is one step), exercised by the kill runs — which include every point inside the transaction (bucket, sequence, Put, cleanup, each Delete) and inside bbolt's own Commit (before the data pages, between data and meta page, after the meta page; instrumented copy of bbolt's tx.go) — not proved; a process kill keeps the page cache, so torn or reordered writes of a power loss are not simulated.",
    technique="Lean 4 proof (inductive invariant over all schedules) + kill-point enumeration correspondence",
    design="§8 C09"),
@@ -75,18 +75,18 @@ CLAIMED = {
    technique="Lean 4 proof (history invariant) + differential correspondence",
    design="§8 C20"),
  "C08": dict(
-   text="Theorems: carrier precedence of the requested id (header, else lastEventID, else the legacy parameter only under version-7 compatibility); a Last-Event-ID response header exactly when one was requested; for the Bolt negotiation over any stored history: response = requested iff the id is stored (then everything after its first occurrence is replayed), 'earliest' replays the whole retained history, in every other case the response differs and nothing is replayed; the local transport always answers 'earliest'. Tie: the real SubscribeHandler on all 2^3 carrier combinations x id classes x compat x histories (empty, truncated by retention, containing 'earliest' as an id) x transports, response header and replayed stream compared with the model.",
+   text="Theorems: carrier precedence of the requested id (header, else lastEventID, else the legacy parameter only under version-7 compatibility); a Last-Event-ID response header exactly when one was requested; for the Bolt negotiation over any stored history: response = requested iff the id is stored (then everything after its first occurrence is replayed), 'earliest' replays the whole retained history, in every other case the response differs and nothing is replayed; the local transport always answers 'earliest'. Tie: the real SubscribeHandler on all 2^3 carrier combinations x id classes x compat x histories (empty, truncated by retention, containing 'earliest' as an id) x transports, response header and replayed stream compared with the model. Byte level: the announced id computed on the raw keys is the one the abstract negotiation announces (byte_level_announced_id); a requested id that is only part of a stored key is never found (family store).",
    note=TB + "Sequential negotiation (nothing published during the scan); publishes concurrent with the scan are C07's.",
    technique="Lean 4 proof (list induction on the stored history) + differential correspondence through the HTTP handler",
    design="§8 C08"),
  "C10": dict(
-   text="Theorems over the retention machine (append under the next sequence, then delete every key <= last-size when the cleanup coin says so), for every size and every coin sequence: the retained history is a contiguous suffix of the accepted updates with consecutive sequence numbers, it never holds fewer than min(n,size), exactly that many when cleanup always runs, size 0 keeps everything, and a replay from any retained id returns exactly the accepted updates after it; at machine width (BitVec 64) the guard `size >= last` and the bound `last - size` of cleanup delete exactly the keys the Nat-level model drops, for every 64-bit size, last sequence and key (no wrap-around), the shape of that guard being a fact regenerated from bolt.go on every run (witness theorem: the signed-arithmetic rewrite deletes everything for size 2^64-1). Tie: real BoltTransport histories (sizes up to 2^64-1) with the model as acceptor of the runtime's coin (bucket keys read back after every publish), payloads spanning B-tree pages, restarts; the property's oracle is also evaluated on the implementation alone.",
+   text="Theorems over the retention machine (append under the next sequence, then delete every key <= last-size when the cleanup coin says so), for every size and every coin sequence: the retained history is a contiguous suffix of the accepted updates with consecutive sequence numbers, it never holds fewer than min(n,size), exactly that many when cleanup always runs, size 0 keeps everything, and a replay from any retained id returns exactly the accepted updates after it; at machine width (BitVec 64) the guard `size >= last` and the bound `last - size` of cleanup delete exactly the keys the Nat-level model drops, for every 64-bit size, last sequence and key (no wrap-around), the shape of that guard being a fact regenerated from bolt.go on every run (witness theorem: the signed-arithmetic rewrite deletes everything for size 2^64-1). Tie: real BoltTransport histories (sizes up to 2^64-1) with the model as acceptor of the runtime's coin (bucket keys read back after every publish), payloads spanning B-tree pages, restarts; the property's oracle is also evaluated on the implementation alone. Also proved when the retention size changes between publications (restart with another configuration on the same file): retained_is_suffix_any_sizes. Byte level: persist + cleanup on the bucket's bytes is the abstract machine (byte_level_retention_is_rRun, byte_level_keys_contiguous).",
    note=TB + "bbolt's B+tree/cursor semantics are not modelled (the correspondence is what found the cursor-skip defect F4, now fixed in /repo).",
    technique="Lean 4 proof (invariant by induction over publish/coin histories) + acceptor-mode correspondence on the real Bolt file",
    design="§8 C10"),
  "C12": dict(
-   text="Theorems: for every payload string and every id/type free of line breaks, the reference W3C parser applied to Event.encode yields exactly one event with the published id, type, retry and LF-normalised data; a stream made of ':' comments and events in any order decodes to exactly the events written. The replacer pairs and format strings of Event.String are regenerated from event.go and checked against the model. Tie: Event.String vs the Lean encoder on a payload grammar, the harness's own parser vs the Lean parser, and end-to-end POST -> live and replayed streams on both transports.",
-   note=TB + "JSON re-serialisation in the Bolt replay path and form decoding are library behaviour (compared end to end, not proved). Ids/types containing line breaks are outside the property (the hub accepts them).",
+   text="Theorems: for every payload string and every id/type free of line breaks, the reference W3C parser applied to Event.encode yields exactly one event with the published id, type, retry and LF-normalised data; a stream made of ':' comments and events in any order decodes to exactly the events written. The replacer pairs and format strings of Event.String are regenerated from event.go and checked against the model. Persistent transport: the stored JSON value decodes to exactly the published update (every scalar sequence, every 64-bit retry), and the values of a history scan decode to the stored updates in order. Tie: Event.String vs the Lean encoder on a payload grammar, the harness's own parser vs the Lean parser, and end-to-end POST -> live and replayed streams on both transports.",
+   note=TB + "The JSON form stored by the Bolt transport is modelled byte for byte (Model/Json) and its round trip proved (stored_value_roundtrip; family store compares the stored bytes with the model's); form decoding of the POST body is library behaviour (compared end to end, not proved). Ids/types containing line breaks are outside the property (the hub accepts them).",
    technique="Lean 4 proof (round-trip by induction over the payload and over the chunk list) + differential correspondence",
    design="§8 C12"),
  "C02": dict(
